@@ -161,6 +161,15 @@ def unresolved(run):
                 if not g and top not in ex.OPTIONAL and top not in ex.STDLIB and top.lower() not in declared:
                     bad.append({"file": rel, "line": ln, "expr": "import " + m,
                                 "why": "is neither standard library nor declared in install_requires (%s)" % sorted(declared)})
+            try:
+                bound_here = ex.names_bound_in(ast.parse(src_))
+            except Exception:
+                bound_here = set()
+            for nm, chain_, line_ in v.unbound:
+                if nm not in bound_here:
+                    bad.append({"file": rel, "line": line_, "expr": nm + "." + ".".join(chain_),
+                                "why": "uses the library root name `%s`, which is not bound anywhere in this module "
+                                       "(no import binds it): NameError at run time" % nm})
             for rootp, chain, kws, line, g in v.kwcalls:
                 if not g and ex.is_external(rootp) and rootp.split(".")[0] not in ex.OPTIONAL:
                     for kw in kws:
